@@ -334,9 +334,5 @@ func init() {
 		return obls, []string{"assumed: strconv.ParseFloat(s,64) returns a nil error only for Go decimal float literals when s is over the alphabet 0-9 . e E + -"}, nil
 	}
 	lemmaRegistry["C18"] = append(lemmaRegistry["C18"], enc)
-	app := func(e *Engine, prop string) ([]*Obligation, []string, error) {
-		obls := numLemma(e, numLemmaSite{pkg: "encoder", table: "floatTable", name: "encoder.AppendNumber", firstAny: true, noParseFloat: true})
-		return obls, nil, nil
-	}
-	lemmaRegistry["C03"] = append(lemmaRegistry["C03"], app)
+	// encoder.AppendNumber is no longer a character-class check: it is under a function contract (isValidNumber)
 }
